@@ -14,10 +14,13 @@ RULE = ("a case is a namespace tree on disk with read_namespace / read_files cal
         "lower-cased name and version match a reference of a member; computed by the generator, not by the implementation) - in a "
         "lookup directory, or for read_files elsewhere in the targets' own root - and the text of the victim is replaced by one of 14 "
         "replacements (binary garbage, empty, syntax error, duplicate attribute, bad union, bad extent, failing @assert, @print, "
-        "undefined reference, self reference, service instead of message, deprecated, delimited with another extent, huge array), or "
+        "undefined reference, self reference, service instead of message, deprecated, delimited with another extent, huge array; victims "
+        "that are other versions / case variants of a name referenced in the closure are preferred, and a stream of calls that FAIL in "
+        "resolution - nonexistent version of a name that has other versions, wrong case, wrong namespace - is included), or "
         "an unreferenced definition is ADDED whose port-ID collides with a target's, or whose version conflicts with a member of the "
         "closure in extent / sealing / kind; the call is repeated and must return the identical observation (types, handler calls, set "
-        "of opened files) and must not open the victim; a separate stream puts a malformed file name into a directory; "
+        "of opened files; for a failing call: error class, file the error is located in, handler calls, opened files - never the error "
+        "text) and must not open the victim; a separate stream puts a malformed file name into a directory; "
         "non-trivial = at least one victim was replaced for a call that reads >= 2 files; distinct = by hash of the canonical case")
 THEOREMS_NOTE = ("C19_noninterference: equal texts on the closure give equal outcomes (types, handler calls, opened files); "
                  "C19_opened_in_closure: only members of the closure are opened; C19_checks_scope: an unreferenced extra lookup definition "
@@ -98,6 +101,18 @@ def closure(case, q):
     return clo, [f["id"] for _, f in L], dirs
 
 
+def closure_members_with_ns(case, q, clo):
+    dirs, _ = query_dirs(case, q)
+    out = []
+    for f in case["files"]:
+        if f["id"] in clo:
+            for r in dirs:
+                if B.is_under(r, f):
+                    out.append((B.rel_ns(r, f), f))
+                    break
+    return out
+
+
 # ----------------------------------------------------------------------------------------------------------------
 # generator
 
@@ -111,6 +126,16 @@ def gen_mutations(rng, case, q):
         # also definitions that are not even listed
         victims += [f["id"] for f in case["files"] if f["ext"] != "txt" and f["id"] not in clo and f["id"] not in victims]
     rng.shuffle(victims)
+    # first the outsiders that are "near" the closure: other versions / case variants of something a member refers to
+    near_names = set()
+    for ns, f in closure_members_with_ns(case, q, clo):
+        for it in f["body"]:
+            if it[0] == "ref":
+                near_names.add((it[1] if "." in it[1] else ns + "." + it[1]).lower())
+    def is_near(i):
+        f = files[i]
+        return any((B.rel_ns(r, f) + "." + f["short"]).lower() in near_names for r in dirs if B.is_under(r, f))
+    victims.sort(key=lambda i: 0 if is_near(i) else 1)
     for v in victims[:3]:
         kind, text = rng.choice(REPLACEMENTS)
         if kind == "self_ref":
@@ -141,10 +166,14 @@ def gen_mutations(rng, case, q):
 
 
 def gen_case(rng, tier):
-    flavor = rng.choice(["plain", "plain", "plain", "plain", "errors", "twins", "badname"])
+    flavor = rng.choice(["plain", "plain", "plain", "plain", "errors", "twins", "badname", "failing", "failing"])
     opts = {"print_p": 0.3, "missing_p": 0.0, "badrel_p": 0.0, "fault_p": 0.0}
     if flavor == "errors":
         opts = {"print_p": 0.3, "missing_p": 0.03, "badrel_p": 0.02, "fault_p": 0.03, "cycle_p": 0.1}
+    if flavor == "failing":
+        # calls that FAIL in resolution: references to versions that do not exist (of names that have other versions),
+        # wrongly spelled or wrongly placed names; the victims are the other versions / look-alikes outside the closure
+        opts = {"print_p": 0.4, "missing_p": 0.3, "badrel_p": 0.05, "fault_p": 0.0, "wrongcase_p": 0.08, "case_names": rng.random() < 0.3}
     roots = B.pick_dirs(rng)
     if len(roots) == 1 or rng.random() < 0.5:
         roots.append(["c", "lib"])
@@ -231,6 +260,28 @@ def generate(rng, tier):
 # implementation side
 
 
+def canon_obs(case, o):
+    """observations are compared up to the choice between twin files (see Check/C09.v) - only when the case has twins"""
+    groups = {}
+    for f in case["files"]:
+        if f["ext"] != "txt" and not f.get("bad"):
+            groups.setdefault((tuple(f["dir"]), f["short"], f["maj"], f["min"]), []).append(f["id"])
+    cm = {i: min(v) for v in groups.values() if len(v) > 1 for i in v}
+    if not cm:
+        return o
+    c = lambda i: cm.get(i, i)  # noqa: E731
+
+    def tree(t):
+        return [c(t[0]), t[1], t[2], t[3], [tree(k) for k in t[4]]]
+
+    if "ok" in o:
+        k = o["ok"]
+        return {"ok": {"direct": [tree(t) for t in k["direct"]], "trans": [tree(t) for t in k["trans"]],
+                       "deliv": sorted([c(a), c(b), l] for a, b, l in k["deliv"]), "opened": k["opened"]}}
+    return {"err": o["err"], "path": c(o["path"]) if o.get("path") is not None else None,
+            "deliv": sorted([c(a), c(b), l] for a, b, l in o["deliv"]), "opened": sorted(set(c(i) for i in o["opened"]))}
+
+
 def run_impl(cases):
     out = []
     B._patch_text()  # pylint: disable=protected-access
@@ -246,7 +297,7 @@ def run_impl(cases):
             idmap = B.materialise(base, case)
             os.chdir(base)
             for qi, q in enumerate(case["queries"]):
-                o = B.run_query(base, case, q, idmap)
+                o = B.run_query(base, case, q, idmap, err_detail=True)
                 obs.append(o)
                 for m in q.get("mutations", []):
                     if m["m"] == "text":
@@ -267,7 +318,7 @@ def run_impl(cases):
                     with open(p, "w", encoding="latin-1") as fh:
                         fh.write(m["text"])
                     try:
-                        o2 = B.run_query(base, case, q, idmap)
+                        o2 = B.run_query(base, case, q, idmap, err_detail=True)
                     finally:
                         if old is not None:
                             with open(p, "wb") as fh:
@@ -279,9 +330,9 @@ def run_impl(cases):
                                 os.rmdir(created_dir)
                     if fail:
                         continue
-                    if o2 != o:
+                    if canon_obs(case, o2) != canon_obs(case, o):
                         fail = "query %d, %s of file %s: outcome changed from %s to %s" % (qi, m["kind"], m.get("file", m.get("base")), str(o)[:300], str(o2)[:300])
-                    elif "ok" in o2 and (vid in o2["ok"]["opened"] or any(d[1] in (vid, -2) for d in o2["ok"]["deliv"])):
+                    elif vid in (o2["ok"] if "ok" in o2 else o2)["opened"] or any(d[1] in (vid, -2) for d in (o2["ok"] if "ok" in o2 else o2)["deliv"]):
                         fail = "query %d, %s: the definition outside the closure was opened" % (qi, m["kind"])
         finally:
             os.chdir(cwd)
